@@ -22,6 +22,8 @@ def _listify(x, single_is_tuple_of_ints=True):
 
 
 def lattice_must_reject(cfg):
+  if _bad_regularizer(cfg.get("kernel_regularizer"), ("torsion", "laplacian")):
+    return "unknown kernel_regularizer name"
   sizes = list(cfg["lattice_sizes"])
   rank = len(sizes)
   if any(s < 2 for s in sizes):
@@ -119,7 +121,17 @@ def lattice_must_reject(cfg):
   return None
 
 
+def _bad_regularizer(reg, names):
+  """A (name, l1, l2) regularizer spec (or a list of them) with a name outside the documented ones."""
+  if reg is None:
+    return False
+  specs = [reg] if (isinstance(reg, tuple) and reg and isinstance(reg[0], str)) else (reg if isinstance(reg, (list, tuple)) else [])
+  return any(isinstance(r, tuple) and r and isinstance(r[0], str) and r[0].lower() not in names for r in specs)
+
+
 def pwl_must_reject(cfg):
+  if _bad_regularizer(cfg.get("kernel_regularizer"), ("laplacian", "hessian", "wrinkle")):
+    return "unknown kernel_regularizer name"
   kp = list(cfg["input_keypoints"])
   if len(kp) < 2:
     return "fewer than 2 keypoints"
